@@ -436,7 +436,7 @@ def gen_case(rng, ver=None):
             elif r < 0.9:
                 p = rng.randint(-3, 3)
             else:
-                p = rng.choice([-30, -6, 5, 9, 17, 26, 30, 400])
+                p = rng.choice([-30, -6, 5, 9, 17, 26, 30, 400, 2100, -2100, 2500, 5000])
     if ver == '10':
         def fix10(v):
             if v is not None and v[0] == 'i' and abs(v[1]) >= 2**1000:
@@ -904,6 +904,74 @@ EMPTY_EXPECT = [("() + 1", 'EMPTY'), ("1 + ()", 'EMPTY'), ("() - 2.5", 'EMPTY'),
                 ("() idiv 2", 'ERR:XPST0005'), ("2 idiv ()", 'ERR:XPST0005')]
 
 
+# ------------------------------------------------------------------ two-step histories
+H400 = '1' + '0' * 400
+HISTORY_POOL = [
+    # (parser versions, expression): every rounding / exception path of the anchored functions, including
+    # precisions beyond the 2000-digit local context (F06p fallback) and the overflow paths
+    (('30', '31'), "round(1.25, 2500)"), (('30', '31'), "round(xs:decimal('1.25'), -2500)"),
+    (('30', '31'), "round(1.5e0, 2500)"), (('30', '31'), "round(xs:float('2.5'), 3000)"),
+    (('30', '31'), "round(-0.5e0, 2200)"), (('30', '31'), "round(12345, 2100)"), (('30', '31'), "round(12345, -2100)"),
+    (('30', '31'), "round(1.25, 5)"), (('30', '31'), "round(1e300, 2)"), (('30', '31'), "round(xs:double('NaN'), 2500)"),
+    (('20', '31'), "round-half-to-even(2.345, 5000)"), (('20', '31'), "round-half-to-even(2.5e0, 5000)"),
+    (('20', '31'), "round-half-to-even(12345, -3000)"), (('20', '31'), "round-half-to-even(xs:float('2.5'), 2500)"),
+    (('20', '31'), "round-half-to-even(1e300, -2)"), (('20', '31'), "round-half-to-even(2.345, 2)"),
+    (('20', '31'), "round-half-to-even(xs:decimal('-2.345'), -5000)"),
+    (('10', '20'), "round(2.5)"), (('20',), "round(12345678901234567890123456789012345.5)"), (('10', '20'), "round(number('2.5'))"),
+    (('20', '31'), "round(1e300)"), (('20', '31'), "floor(2.5)"), (('20', '31'), "ceiling(-2.5e0)"),
+    (('20', '31'), "abs(xs:decimal('-1.5'))"), (('20', '31'), "1 div 3"), (('20', '31'), "1 div 0"),
+    (('20', '31'), "1.5 mod 0"), (('20', '31'), "1.5 idiv 0.0"), (('20', '31'), f"xs:integer('{H400}') idiv 2e0"),
+    (('20', '31'), f"xs:integer('{H400}') mod xs:decimal('3')"), (('20', '31'), f"xs:integer('{H400}') idiv xs:decimal('0.5')"),
+    (('20', '31'), f"xs:integer('{H400}') * 1.5"), (('20', '31'), f"floor(xs:integer('{H400}'))"),
+    (('20', '31'), "xs:decimal('12345678901234567890.123') * xs:decimal('98765432109876.54321')"),
+    (('20', '31'), "1e300 * 1e300"), (('20', '31'), "xs:float('1e38') * 10"), (('20', '31'), "round('abc')"),
+    (('20', '31'), "round-half-to-even('abc', 2)"), (('30', '31'), "round(1.5, 99999999999)"),
+    (('20', '31'), "round-half-to-even(4.8712122, 8328782878)"),
+    (('10',), "round('2.5')"), (('10',), "5 mod 0"), (('10',), "1 div 3"), (('10',), "floor('abc')"),
+]
+
+
+def history_probes(ver: str) -> list:
+    """decimal divisions / mods / products whose result depends on the thread's decimal context"""
+    return [C(ver, 'div', ('i', 1), ('i', 3)), C(ver, 'div', ('d', 100, 1), ('i', 7)), C(ver, 'div', ('i', 2), ('d', 30, 1)),
+            C(ver, 'mod', ('d', 3333333333333333333333333333, 28), ('d', 1, 1)),
+            C(ver, 'mul', ('d', 12345678901234567890123, 3), ('d', 9876543210987654321, 5)),
+            C(ver, 'add', ('d', 10**28 + 5, 0), ('d', 5, 1)), C(ver, 'div', ('d', -1, 0), ('d', 7, 0)),
+            C(ver, 'neg', ('d', 10**29 + 7, 0)), C(ver, 'div', ('i', 10**30), ('i', 7))]
+
+
+def check_histories(run: Run) -> None:
+    """two-step histories: an expression of the pool is evaluated first, then the probes — their results must
+    be the single-expression model results whatever was evaluated before (arithmetic must not depend on the
+    history: process-wide decimal context, caches on shared parsers)"""
+    import decimal
+    st = run.stats
+    probe_answers = {v: ask(run, history_probes(v)) for v in ('10', '20', '31')}
+    base_prec = decimal.getcontext().prec
+    for vers, first in HISTORY_POOL:
+        for ver in vers:
+            before = (decimal.getcontext().prec, decimal.getcontext().rounding)
+            first_result = eval_paths(first, ver, shared=True)
+            after = (decimal.getcontext().prec, decimal.getcontext().rounding)
+            pv = ver if ver in probe_answers else '31'
+            for case, a in zip(history_probes(pv), probe_answers[pv]):
+                if a is None:
+                    continue
+                st.count('history-probe')
+                st.evaluations += 1
+                impl = run_impl(case, 1)
+                cj = dict(case_json(case), history=[first], history_parser=ver, history_result=first_result[:80],
+                          decimal_context_before=list(before), decimal_context_after=list(after))
+                judge(run, cj, f"history@{ver}", impl, a, True, what='history')
+            if after != before:
+                run.disagree(Disagreement({'v': ver, 'expr': first, 'history': [first],
+                                           'decimal_context_before': list(before), 'decimal_context_after': list(after)},
+                                          impl=f'context:{after}', model=None, spec=f'context:{before}',
+                                          what='decimal-context-leak', site=f'history@{ver}'))
+                decimal.getcontext().prec = base_prec      # keep the rest of the run meaningful
+                decimal.getcontext().rounding = before[1]
+
+
 def check_empty(run: Run) -> None:
     """F&O 4.2: an empty-sequence operand gives the empty sequence (not modelled in Lean: fixed expectations)"""
     import elementpath
@@ -962,6 +1030,8 @@ def still_fails(run: Run, case, want_tags) -> bool:
 
 def make_shrink(run: Run):
     def shrink(d: Disagreement) -> Disagreement:
+        if any(k in d.case for k in ('history', 'context', 'form', 'elems')):
+            return d            # a history / context / call-site-reuse input: reported as generated
         try:
             case = case_of_json(d.case)
         except Exception:
@@ -1025,6 +1095,7 @@ def body(run: Run) -> int:
     run.prove(['EPV.Props.C06'], ['EPV.Spec.FOArith', 'EPV.Model.Arith'])
     try:
         check_empty(run)
+        check_histories(run)
         correspond(run)
     except DriverError as e:
         run.broken.append('driver:C06 ' + str(e)[:300])
